@@ -85,11 +85,17 @@ class Handlers(UserDict):
     def __init__(self, initial: Optional[Mapping[str, BaseHandler]] = None) -> None:
         self._resolve: ResolverMethod = self._create_resolver()
 
-        handlers: Mapping[str, BaseHandler] = initial or {
-            MEDIA_JSON: JSONHandler(),
-            MEDIA_MULTIPART: MultipartFormHandler(),
-            MEDIA_URLENCODED: URLEncodedFormHandler(),
-        }
+        # NOTE: Only fall back to the defaults when nothing was passed in; an
+        #   empty mapping (e.g., when copying emptied handlers) stays empty.
+        handlers: Mapping[str, BaseHandler] = (
+            {
+                MEDIA_JSON: JSONHandler(),
+                MEDIA_MULTIPART: MultipartFormHandler(),
+                MEDIA_URLENCODED: URLEncodedFormHandler(),
+            }
+            if initial is None
+            else initial
+        )
 
         # NOTE(jmvrbanac): Directly calling UserDict as it's not inheritable.
         # Also, this results in self.update(...) being called.
